@@ -50,7 +50,9 @@ theorem purge {x : Option Nat} {w : World} (h : WInvX x w) (p : Nat) (reason : E
     (purgeSession p reason w).1.timers = w.timers ∧ (purgeSession p reason w).1.connReqs = w.connReqs ∧
     (∀ y ∈ (purgeSession p reason w).1.ents, y ∈ w.ents) ∧
     (∀ y ∈ w.ents, y.box = .queue ∨ y.box = .sub ∨ y.box = .unsub ∨ y.addr ≠ w.paddr p → y ∈ (purgeSession p reason w).1.ents) ∧
-    ArmedIn (fun b => b = .pub ∨ b = .rel) (purgeSession p reason w).1 (w.paddr p) := purgeSession_inv h p reason
+    ArmedIn (fun b => b = .pub ∨ b = .rel) (purgeSession p reason w).1 (w.paddr p) := by
+  obtain ⟨a1, a2, a3, a4, a5, a6, a7, a8, a9, _⟩ := purgeSession_inv h p reason
+  exact ⟨a1, a2, a3, a4, a5, a6, a7, a8, a9⟩
 
 /-- released messages: after the CONNACK the window is refilled as far as it allows (C10) -/
 theorem refill_after_connack (p : Nat) (dup : Bool) (fuel : Nat) (w : World)
